@@ -269,17 +269,22 @@ func (a *aclList) AddRawRecord(rawRec *consensusproto.RawRecordWithId) (err erro
 	if err = copyState.ApplyRecord(record); err != nil {
 		return
 	}
-	a.setState(copyState)
-	a.records = append(a.records, record)
-	a.indexes[record.Id] = len(a.records) - 1
 	storageRec := StorageRecord{
 		RawRecord:  rawRec.Payload,
 		PrevId:     record.PrevId,
 		Id:         record.Id,
-		Order:      len(a.records),
+		Order:      len(a.records) + 1,
 		ChangeSize: len(rawRec.Payload),
 	}
-	return a.storage.AddAll(context.Background(), []StorageRecord{storageRec})
+	// persisting first: if the write fails, the in-memory list stays equal to the stored one
+	// and the same record can be added again
+	if err = a.storage.AddAll(context.Background(), []StorageRecord{storageRec}); err != nil {
+		return
+	}
+	a.setState(copyState)
+	a.records = append(a.records, record)
+	a.indexes[record.Id] = len(a.records) - 1
+	return
 }
 
 func (a *aclList) setState(state *AclState) {
